@@ -549,6 +549,60 @@ fn call_builtin_inner(m: &mut Model, site: &ScopeRef, name: &str, args: Vec<V>) 
                 _ => throw("argument error: ||"),
             }
         }
+        "||+" => {
+            // merge; values under a common key are added (numbers only), the left key spelling stays
+            let (a, b) = need2(name, args)?;
+            match (a, b) {
+                (V::Dict(mut x), V::Dict(y)) => {
+                    for (k, v) in y.entries {
+                        match x.find(&k) {
+                            None => x.entries.push((k, v)),
+                            Some(j) => {
+                                let old = x.entries[j].1.clone();
+                                if matches!(old, V::Vector(_)) || matches!(v, V::Vector(_)) {
+                                    return unknown("||+ on vectors");
+                                }
+                                if !is_num(&old) || !is_num(&v) {
+                                    return throw("argument error: ||+ on non-numbers");
+                                }
+                                x.entries[j].1 = arith("+", &old, &v)?;
+                            }
+                        }
+                    }
+                    Ok(V::Dict(x))
+                }
+                _ => throw("argument error: ||+"),
+            }
+        }
+        "group_all" | "classify" => {
+            // classes of `==` on f(x), in order of first appearance (the implementation's order is
+            // the hash order: the generators only observe order-insensitive digests of group_all)
+            let (a, f) = need2(name, args)?;
+            let f = match (&a, as_func(&f)) {
+                (V::List(_) | V::Vector(_) | V::Str(_) | V::Bytes(_) | V::Dict(_), Some(f)) => f,
+                (V::Stream(_), Some(_)) => return unknown("grouping a stream"),
+                _ => return throw("value error: not seq+func"),
+            };
+            let xs = m.iterate(&a, name)?;
+            let mut d = Dict { entries: Vec::new(), default: None };
+            for x in xs {
+                let k = m.call_func_at(site, &f, vec![x.clone()])?;
+                let k = m.to_key(k)?;
+                match d.find(&k) {
+                    Some(j) => {
+                        if let V::List(g) = &mut d.entries[j].1 {
+                            g.push(x);
+                        }
+                    }
+                    None => d.entries.push((k, V::List(vec![x]))),
+                }
+            }
+            if name == "classify" {
+                Ok(V::Dict(d))
+            } else {
+                Ok(V::List(d.entries.into_iter().map(|(_, g)| g).collect()))
+            }
+        }
         "&&" | "--" => {
             let (a, b) = need2(name, args)?;
             match (a, b) {
